@@ -173,14 +173,9 @@ impl serde_json::JsonDe for SessionCookie { open spec fn json_parse(b: Seq<u8>) 
 impl serde_json::JsonSer for Option<ServerStatus> { open spec fn json_text(&self) -> Seq<char> { json_status(*self) } }
 
 // ------------------------------------------------------------------ cipher + socket
-pub struct Aes128Cfb8Enc { pub key: Ghost<Seq<u8>> }
-pub struct Aes128Cfb8Dec { pub key: Ghost<Seq<u8>> }
-/// contract proved in unit U5 on the real `create_ciphers`
-#[verifier::external_body]
-pub fn create_ciphers(shared_secret: &[u8]) -> (r: Result<(Aes128Cfb8Enc, Aes128Cfb8Dec), CryptoError>)
-    ensures r matches Ok((e, d)) ==> e.key@ == shared_secret@ && d.key@ == shared_secret@ && shared_secret@.len() == 16,
-        shared_secret@.len() != 16 ==> r is Err,
-{ unimplemented!() }
+pub struct Aes128Cfb8Enc { pub key: Ghost<Seq<u8>>, pub reg: Ghost<Seq<u8>> }
+pub struct Aes128Cfb8Dec { pub key: Ghost<Seq<u8>>, pub reg: Ghost<Seq<u8>> }
+// `create_ciphers`: contract proved in unit U5, emitted here from U5's contracts.toml (see common.py)
 
 // ------------------------------------------------------------------ listener side (U9): socket, PROXY protocol, limiter
 pub struct TcpStream { pub id: int }
